@@ -1,63 +1,646 @@
-//! C02: coroutine::park / park_timeout / unpark on the per-coroutine handle (live mode)
+//! C02 (live mode): park / unpark never loses a wake-up
+//!
+//! * family `park`   : `coroutine::park()` / `park_timeout(d)` on the per-coroutine handle, 1-4 rounds on the SAME
+//!   `Park`; 1-4 unparkers that are threads (`t1`..) and coroutines (`c:u1`..) call `Coroutine::unpark()` before,
+//!   while and after the parker parks.
+//! * family `blocker`: `may::sync::Blocker::current()` - a FRESH blocker per round, 1-2 parks on it - in coroutine
+//!   context (`c:c1`, the blocker wraps a `Park`) or in thread context (`p1`, it wraps a `ThreadPark`; nothing of it
+//!   is hooked in live mode, the model sees the API boundary only). Result kinds are recorded in `ret`.
+//!
+//! API boundary events (a1, a2):
+//!   call co.park d_ms 0            ret co.park 0                (d_ms = 0: no time-out)
+//!   call co.unpark 0 0             ret co.unpark 0
+//!   call blk.new i 0               ret blk.new i                (parker creates blocker number i)
+//!   call blk.park i d_ms           ret blk.park r               (r = 0 Ok, 1 Timeout, 2 Canceled)
+//!   call blk.unpark i 0            ret blk.unpark 0
+//!   call blk.drop i 0              ret blk.drop 0               (the parker drops ITS reference)
+//!
+//! Oracles (independent of the model): every round completes (a parker that is unparked after its previous park
+//! returned must return: the unparkers keep going until the parker is through, the watchdog reports a hang);
+//! `Timeout` only from a timed park and never before the requested duration (exact lower bound, no upper bounds);
+//! `Canceled` never (nobody cancels here).
+//!
+//! Time-outs do fire: some unparkers sit a round out; if then nothing happens for a long time (a lost time-out, the
+//! known defect F6, or a slow machine) `main` unparks as a rescuer - a bounded number of times, so that a real
+//! lost wake-up still ends in the watchdog.
 use super::{spawn_actor_thread, LiveBuilt};
 use crate::rt::{call, ret, Rng};
 use may::coroutine;
+use may::coroutine::ParkError;
+use may::sync::Blocker;
 use std::sync::atomic::{AtomicBool, AtomicUsize, Ordering};
-use std::sync::Arc;
-use std::time::Duration;
+use std::sync::{Arc, Mutex, Weak};
+use std::time::{Duration, Instant};
 
-pub fn build(rng: &mut Rng, tier: u32) -> LiveBuilt {
-    let rounds = 1 + rng.below(if tier > 0 { 6 } else { 3 }) as usize;
-    let nunp = 1 + rng.below(3) as usize;
-    let gap_us: Vec<u64> = (0..nunp).map(|_| rng.below(400)).collect();
-    let header = format!("family=park rounds={rounds} unparkers={nunp}");
-    LiveBuilt {
-        header,
-        filter: vec!["src/park.rs"],
-        hang_ms: 2000,
-        run: Box::new(move || {
-            let mut fails = vec![];
-            let parked_rounds = Arc::new(AtomicUsize::new(0));
-            let done = Arc::new(AtomicBool::new(false));
-            let pr = parked_rounds.clone();
+// ------------------------------------------------------------------------------------------------ crash reporting
+//
+// The runtime under test can corrupt the heap of the harness process (timer-list node written after free, see
+// pending_fixes/README-C02.md): glibc then aborts the process (SIGABRT) or it segfaults. A handler turns that into
+// the one-line JSON summary the check expects, with an oracle failure under the stable prefix `memory-corruption:`,
+// so that the run is reported as a finding of the implementation and not as a harness crash.
+mod crash {
+    use std::sync::atomic::{AtomicU64, Ordering};
+    pub static SEED0: AtomicU64 = AtomicU64::new(u64::MAX);
+    pub static BUILT: AtomicU64 = AtomicU64::new(0);
+    static mut FAMILY: [u8; 16] = [0; 16];
+    static mut FAMILY_LEN: usize = 0;
+
+    extern "C" {
+        fn signal(signum: i32, handler: usize) -> usize;
+        fn write(fd: i32, buf: *const u8, n: usize) -> isize;
+        fn _exit(code: i32) -> !;
+    }
+
+    fn put(buf: &mut [u8; 640], n: &mut usize, s: &[u8]) {
+        for &b in s {
+            if *n < buf.len() {
+                buf[*n] = b;
+                *n += 1;
+            }
+        }
+    }
+    fn put_num(buf: &mut [u8; 640], n: &mut usize, mut v: u64) {
+        let mut d = [0u8; 20];
+        let mut k = 0;
+        loop {
+            d[k] = b'0' + (v % 10) as u8;
+            v /= 10;
+            k += 1;
+            if v == 0 {
+                break;
+            }
+        }
+        while k > 0 {
+            k -= 1;
+            put(buf, n, &d[k..k + 1]);
+        }
+    }
+
+    extern "C" fn on_signal(sig: i32) {
+        // async-signal-safe only: no allocation, no locks
+        let mut buf = [0u8; 640];
+        let mut n = 0usize;
+        let built = BUILT.load(Ordering::Relaxed);
+        let seed = SEED0.load(Ordering::Relaxed).wrapping_add(built.saturating_sub(1));
+        put(&mut buf, &mut n, b"\n{\"family\":\"");
+        unsafe {
+            let len = FAMILY_LEN;
+            let fam = FAMILY;
+            put(&mut buf, &mut n, &fam[..len]);
+        }
+        put(&mut buf, &mut n, b"\",\"runs\":");
+        put_num(&mut buf, &mut n, built);
+        put(&mut buf, &mut n, b",\"steps\":0,\"events\":0,\"wall_s\":0,\"workers\":0,\"oracle_failures\":[{\"seed\":");
+        put_num(&mut buf, &mut n, seed);
+        put(&mut buf, &mut n, b",\"what\":\"memory-corruption: the harness process was killed by signal ");
+        put_num(&mut buf, &mut n, sig as u64);
+        put(
+            &mut buf,
+            &mut n,
+            b" while this scenario ran (6 = abort from malloc's heap-consistency check, 11 = segfault); no trace was written\"}],\"unresolved_sites\":[]}\n",
+        );
+        unsafe {
+            write(1, buf.as_ptr(), n);
+            _exit(1);
+        }
+    }
+
+    /// called from `build`: remembers which scenario is running and installs the handler once
+    pub fn arm(family: &str) -> u64 {
+        if SEED0.load(Ordering::Relaxed) == u64::MAX {
+            let a: Vec<String> = std::env::args().collect();
+            let s0 = a.get(3).and_then(|s| s.parse::<u64>().ok()).unwrap_or(0);
+            SEED0.store(s0, Ordering::Relaxed);
+            unsafe {
+                let b = family.as_bytes();
+                let len = b.len().min(16);
+                let mut fam = [0u8; 16];
+                fam[..len].copy_from_slice(&b[..len]);
+                FAMILY = fam;
+                FAMILY_LEN = len;
+                signal(6, on_signal as *const () as usize);
+                signal(11, on_signal as *const () as usize);
+            }
+        }
+        BUILT.fetch_add(1, Ordering::Relaxed) + 1
+    }
+}
+
+/// how one park call is raced:
+///  d = 0            untimed, the unparkers are active
+///  (d, true)        "time-out wins": short time-out, the unparkers sit this call out (the rescuer covers F6)
+///  (d, false)       "unpark wins": long time-out, the unparkers are active
+///  thorough tier only: short time-out AND active unparkers (timer and unparker race for the `take`; this also
+///  races the non-atomic `Node.refs` of the timer entry - the known mpsc_list_v1 observation - which can corrupt
+///  the heap of the harness process, so the quick tier keeps the two time scales apart)
+fn gen_park(rng: &mut Rng, tier: u32, may_be_untimed: bool) -> (u64, bool) {
+    let k = rng.below(100);
+    if may_be_untimed && k < 45 {
+        (0, false)
+    } else if k < 70 {
+        ([1, 1, 2, 3, 5][rng.below(5) as usize], true)
+    } else if tier > 0 && k < 85 {
+        ([1, 2, 3][rng.below(3) as usize], false)
+    } else {
+        ([20, 30][rng.below(2) as usize], false)
+    }
+}
+
+#[derive(Clone, Copy)]
+struct Up {
+    is_co: bool,
+    gap_us: u64,
+    /// per-mille probability to unpark an older blocker (blocker family)
+    stale: u64,
+    seed: u64,
+}
+
+fn gen_unparkers(rng: &mut Rng, tier: u32) -> Vec<Up> {
+    let n = 1 + rng.below(if tier > 0 { 4 } else { 3 }) as usize;
+    (0..n)
+        .map(|_| Up {
+            is_co: rng.chance(400),
+            gap_us: rng.below(400),
+            stale: [0, 0, 200][rng.below(3) as usize],
+            seed: rng.next(),
+        })
+        .collect()
+}
+
+fn names(ups: &[Up]) -> String {
+    ups.iter().map(|u| if u.is_co { 'c' } else { 't' }).collect()
+}
+
+/// what the unparkers and the rescuer look at
+struct Shared {
+    /// number of finished park calls
+    progress: AtomicUsize,
+    /// the unparkers sit the park call in progress out
+    sit_out: AtomicBool,
+    done: AtomicBool,
+    /// the blocker of the round in progress (taken away by the parker before it drops its own reference)
+    cur: Mutex<Option<(usize, Arc<Blocker>)>>,
+    /// all blockers so far (stale unparks go to those that are still alive)
+    old: Mutex<Vec<(usize, Weak<Blocker>)>>,
+}
+
+fn shared() -> Arc<Shared> {
+    Arc::new(Shared {
+        progress: AtomicUsize::new(0),
+        sit_out: AtomicBool::new(false),
+        done: AtomicBool::new(false),
+        cur: Mutex::new(None),
+        old: Mutex::new(vec![]),
+    })
+}
+
+fn pick(sh: &Shared, stale: bool, r: &mut Rng) -> Option<(usize, Arc<Blocker>)> {
+    if stale {
+        let v = sh.old.lock().unwrap();
+        if !v.is_empty() {
+            let (i, w) = &v[r.below(v.len() as u64) as usize];
+            if let Some(b) = w.upgrade() {
+                return Some((*i, b));
+            }
+        }
+    }
+    sh.cur.lock().unwrap().clone()
+}
+
+/// An unparker goes quiet after `MAX_PER_ROUND` unparks without progress of the parker (ONE unpark after the
+/// previous park returned is enough on a correct implementation: the token persists). Without this bound a parker
+/// that lost its wake-up would be unparked for ever (`swap` finds `state` already set), events would keep flowing and
+/// the watchdog could never fire.
+const MAX_PER_ROUND: usize = 40;
+
+#[derive(Default)]
+struct Quota {
+    seen: usize,
+    used: usize,
+}
+
+impl Quota {
+    /// may this unparker still unpark in the current round?
+    fn allow(&mut self, sh: &Shared) -> bool {
+        let p = sh.progress.load(Ordering::SeqCst) + 1;
+        if p != self.seen {
+            self.seen = p;
+            self.used = 0;
+        }
+        self.used < MAX_PER_ROUND
+    }
+    /// an unpark really happened
+    fn count(&mut self, did: bool) {
+        if did {
+            self.used += 1;
+        }
+    }
+}
+
+fn pause(u: &Up, _r: &mut Rng) {
+    std::thread::sleep(Duration::from_micros(50 + u.gap_us));
+}
+
+/// Coroutine unparkers are short-lived bursts that `main` re-spawns while the parker is not through. They never
+/// wait inside the runtime: spinning on `yield_now` starves the worker's global queue (a worker that always finds
+/// its local queue non-empty never collects it, scheduler.rs `run_queued_tasks`) and `coroutine::sleep` would add
+/// timer-list traffic that is not what this family is about.
+struct Bursts {
+    live: Vec<Option<coroutine::JoinHandle<()>>>,
+    quota: Vec<Quota>,
+    gen: usize,
+    all: Vec<coroutine::JoinHandle<()>>,
+}
+
+impl Bursts {
+    fn new(n: usize) -> Self {
+        Bursts { live: (0..n).map(|_| None).collect(), quota: (0..n).map(|_| Quota::default()).collect(), gen: 0, all: vec![] }
+    }
+    fn tick(&mut self, ups: &[Up], sh: &Arc<Shared>, total: usize, unpark: &Arc<dyn Fn(&mut Rng, &Up) -> bool + Send + Sync>) {
+        for (i, u) in ups.iter().enumerate() {
+            if !u.is_co || sh.sit_out.load(Ordering::SeqCst) {
+                continue;
+            }
+            if let Some(h) = &self.live[i] {
+                if !h.is_done() {
+                    continue;
+                }
+            }
+            if let Some(h) = self.live[i].take() {
+                self.all.push(h);
+            }
+            if !self.quota[i].allow(sh) || self.quota[i].used >= MAX_PER_ROUND / 3 {
+                continue;
+            }
+            self.quota[i].count(true);
+            self.gen += 1;
+            let (sh, u, unpark, seed) = (sh.clone(), *u, unpark.clone(), u.seed ^ self.gen as u64);
             let h = unsafe {
                 coroutine::Builder::new()
-                    .name("c1".into())
+                    .name(format!("u{}.{}", i + 1, self.gen))
                     .spawn(move || {
-                        for _ in 0..rounds {
-                            call("co.park", 0, 0);
-                            coroutine::park();
+                        let mut r = Rng::new(seed);
+                        for _ in 0..1 + r.below(3) {
+                            if sh.done.load(Ordering::SeqCst)
+                                || sh.progress.load(Ordering::SeqCst) >= total
+                                || sh.sit_out.load(Ordering::SeqCst)
+                            {
+                                break;
+                            }
+                            let _ = unpark(&mut r, &u);
+                            std::thread::sleep(Duration::from_micros(20 + u.gap_us / 2));
+                        }
+                    })
+                    .unwrap()
+            };
+            self.live[i] = Some(h);
+        }
+    }
+    fn join(self) {
+        for h in self.live.into_iter().flatten().chain(self.all) {
+            let _ = h.join();
+        }
+    }
+}
+
+/// main as rescuer: waits until the parker is through; unparks when nothing moved for a long time
+fn rescue(sh: &Shared, total: usize, unpark: &dyn Fn(), tick: &mut dyn FnMut()) -> Option<String> {
+    let t0 = Instant::now();
+    let mut last = sh.progress.load(Ordering::SeqCst);
+    let mut since = Instant::now();
+    let mut budget = 3 * total + 3;
+    while sh.progress.load(Ordering::SeqCst) < total && !sh.done.load(Ordering::SeqCst) {
+        tick();
+        std::thread::sleep(Duration::from_millis(1));
+        let p = sh.progress.load(Ordering::SeqCst);
+        if p != last {
+            last = p;
+            since = Instant::now();
+        } else if since.elapsed() > Duration::from_millis(80) && budget > 0 {
+            budget -= 1;
+            since = Instant::now();
+            unpark();
+        } else if budget == 0 {
+            return None; // the join below blocks; the watchdog decides
+        }
+        if t0.elapsed() > Duration::from_secs(20) {
+            // harness safety cap (events keep flowing, so the watchdog cannot fire): stop everybody
+            sh.done.store(true, Ordering::SeqCst);
+            return Some("livelock: the scenario is still producing events after 20 s".to_string());
+        }
+    }
+    None
+}
+
+/// Let the runtime threads finish what they do on behalf of this scenario before `run` returns: the last node of a
+/// timer interval list is never unlinked, so a time-out that was "deleted" still fires (its `take` finds the slot
+/// empty) up to `max_ms` after the last park; outer kernel tails store `wait_kernel := false` after the coroutine
+/// has finished. (An operation that is inside its hook when the harness switches logging off would leak the log lock
+/// of harness/src/rt.rs.)
+fn settle(max_ms: u64) {
+    std::thread::sleep(Duration::from_millis(max_ms + 12));
+}
+
+// ------------------------------------------------------------------------------------------------ family park
+
+pub fn build(rng: &mut Rng, tier: u32) -> LiveBuilt {
+    build_park(rng, tier, false)
+}
+
+/// Reproducer only (not part of the C02 check, no model): the `park` family with LONG-LIVED coroutine unparkers that
+/// pause with `coroutine::sleep(1 ms)`. The `Sleep` timers share the 1 ms interval list of the timer thread with the
+/// parker's short time-outs; this variant corrupts the heap of the process now and then (a freed timer-list `Node`
+/// is written after free; see pending_fixes/README-C02.md, "timer-node use-after-free").
+pub fn build_sleepers(rng: &mut Rng, tier: u32) -> LiveBuilt {
+    build_park(rng, tier.max(1), true)
+}
+
+fn build_park(rng: &mut Rng, tier: u32, sleepers: bool) -> LiveBuilt {
+    // the parker's name is unique in the process: kernel tails of the previous scenario's parker may still be at work
+    // when this one starts (they are recognised as foreign by the replay)
+    let pname = format!("c1.{}", crash::arm(if sleepers { "park_sleepers" } else { "park" }));
+    let rounds = 1 + rng.below(if tier > 0 { 8 } else { 4 }) as usize;
+    let durs: Vec<(u64, bool)> = (0..rounds).map(|_| gen_park(rng, tier, true)).collect();
+    let ups = gen_unparkers(rng, tier);
+    let max_ms = durs.iter().map(|d| d.0).max().unwrap_or(0);
+    let header = format!(
+        "family={} rounds={rounds} pname=c:{pname} unparkers={}",
+        if sleepers { "park_sleepers" } else { "park" },
+        names(&ups)
+    );
+    LiveBuilt {
+        header,
+        filter: vec!["src/park.rs", "sync/atomic_dur.rs", "src/cancel.rs"],
+        hang_ms: 4000,
+        run: Box::new(move || {
+            let mut fails = vec![];
+            let sh = shared();
+            let (s2, d2) = (sh.clone(), durs.clone());
+            let h = unsafe {
+                coroutine::Builder::new()
+                    .name(pname.clone())
+                    .spawn(move || {
+                        for (d, sit) in d2 {
+                            s2.sit_out.store(sit, Ordering::SeqCst);
+                            call("co.park", d, 0);
+                            if d == 0 {
+                                coroutine::park();
+                            } else {
+                                coroutine::park_timeout(Duration::from_millis(d));
+                            }
                             ret("co.park", 0);
-                            pr.fetch_add(1, Ordering::SeqCst);
+                            s2.progress.fetch_add(1, Ordering::SeqCst);
                         }
                     })
                     .unwrap()
             };
             let co = h.coroutine().clone();
+            let c2 = co.clone();
+            let unpark: Arc<dyn Fn(&mut Rng, &Up) -> bool + Send + Sync> = Arc::new(move |_r: &mut Rng, _u: &Up| {
+                call("co.unpark", 0, 0);
+                c2.unpark();
+                ret("co.unpark", 0);
+                true
+            });
             let mut ts = vec![];
-            for (i, gap) in gap_us.iter().enumerate() {
-                let (co, done, pr, gap) = (co.clone(), done.clone(), parked_rounds.clone(), *gap);
+            for (i, u) in ups.iter().enumerate() {
+                if u.is_co {
+                    continue;
+                }
+                let (sh, u, unpark) = (sh.clone(), *u, unpark.clone());
                 ts.push(spawn_actor_thread(&format!("t{}", i + 1), move || {
-                    // keep unparking until the parker went through all its rounds: every park must return
-                    while !done.load(Ordering::SeqCst) && pr.load(Ordering::SeqCst) < rounds {
-                        call("co.unpark", 0, 0);
-                        co.unpark();
-                        ret("co.unpark", 0);
-                        std::thread::sleep(Duration::from_micros(50 + gap));
+                    let mut r = Rng::new(u.seed);
+                    let mut quota = Quota::default();
+                    while !sh.done.load(Ordering::SeqCst) && sh.progress.load(Ordering::SeqCst) < rounds {
+                        if !sh.sit_out.load(Ordering::SeqCst) && quota.allow(&sh) {
+                            let did = unpark(&mut r, &u);
+                            quota.count(did);
+                        }
+                        pause(&u, &mut r);
                     }
                 }));
+            }
+            let mut bursts = Bursts::new(ups.len());
+            let mut sleeping = vec![];
+            if sleepers {
+                for (i, u) in ups.iter().enumerate().filter(|(_, u)| u.is_co) {
+                    let (sh, u, unpark) = (sh.clone(), *u, unpark.clone());
+                    sleeping.push(unsafe {
+                        coroutine::Builder::new()
+                            .name(format!("s{}", i + 1))
+                            .spawn(move || {
+                                let mut r = Rng::new(u.seed);
+                                let mut quota = Quota::default();
+                                while !sh.done.load(Ordering::SeqCst) && sh.progress.load(Ordering::SeqCst) < rounds {
+                                    if quota.allow(&sh) {
+                                        let did = unpark(&mut r, &u);
+                                        quota.count(did);
+                                    }
+                                    if r.chance(300) {
+                                        std::thread::sleep(Duration::from_micros(20 + u.gap_us / 2));
+                                    }
+                                    coroutine::sleep(Duration::from_millis(1));
+                                }
+                            })
+                            .unwrap()
+                    });
+                }
+            }
+            if let Some(f) = rescue(&sh, rounds, &|| { let _ = unpark(&mut Rng::new(7), &ups[0]); }, &mut || {
+                if !sleepers {
+                    bursts.tick(&ups, &sh, rounds, &unpark)
+                }
+            }) {
+                fails.push(f);
             }
             if h.join().is_err() {
                 fails.push("parker coroutine panicked".to_string());
             }
-            done.store(true, Ordering::SeqCst);
+            sh.done.store(true, Ordering::SeqCst);
             for t in ts {
                 let _ = t.join();
             }
-            if parked_rounds.load(Ordering::SeqCst) != rounds {
-                fails.push(format!("parker finished {} of {} rounds", parked_rounds.load(Ordering::SeqCst), rounds));
+            bursts.join();
+            for c in sleeping {
+                let _ = c.join();
+            }
+            drop(unpark);
+            call("co.drop", 0, 0);
+            drop(co);
+            ret("co.drop", 0);
+            settle(max_ms);
+            let p = sh.progress.load(Ordering::SeqCst);
+            if p != rounds {
+                fails.push(format!("parker finished {p} of {rounds} rounds"));
             }
             fails
+        }),
+    }
+}
+
+// --------------------------------------------------------------------------------------------- family blocker
+
+fn res_code(r: &Result<(), ParkError>) -> u64 {
+    match r {
+        Ok(()) => 0,
+        Err(ParkError::Timeout) => 1,
+        Err(ParkError::Canceled) => 2,
+    }
+}
+
+pub fn build_blocker(rng: &mut Rng, tier: u32) -> LiveBuilt {
+    let pn = crash::arm("blocker");
+    let rounds = 1 + rng.below(if tier > 0 { 6 } else { 3 }) as usize;
+    let in_co = rng.chance(650);
+    // per round: 1-2 parks on the fresh blocker; the first may be untimed, later ones are timed
+    let plan: Vec<Vec<(u64, bool)>> = (0..rounds)
+        .map(|_| {
+            let n = 1 + rng.below(4) as usize / 3;
+            (0..n).map(|k| gen_park(rng, tier, k == 0)).collect()
+        })
+        .collect();
+    let total: usize = plan.iter().map(|p| p.len()).sum();
+    let max_ms = plan.iter().flatten().map(|d| d.0).max().unwrap_or(0);
+    let ups = gen_unparkers(rng, tier);
+    let pname = if in_co { format!("c1.{pn}") } else { format!("p1.{pn}") };
+    let header = format!(
+        "family=blocker rounds={rounds} parker={} pname={}{pname} unparkers={}",
+        if in_co { "co" } else { "thr" },
+        if in_co { "c:" } else { "" },
+        names(&ups)
+    );
+    LiveBuilt {
+        header,
+        filter: vec!["src/park.rs", "sync/atomic_dur.rs", "src/cancel.rs"],
+        hang_ms: 4000,
+        run: Box::new(move || {
+            let sh = shared();
+            let fails = Arc::new(Mutex::new(Vec::<String>::new()));
+            let (s2, f2) = (sh.clone(), fails.clone());
+            let parker = move || {
+                for (i, parks) in plan.iter().enumerate() {
+                    call("blk.new", i as u64, 0);
+                    let b = Blocker::current();
+                    ret("blk.new", i as u64);
+                    s2.sit_out.store(parks[0].1, Ordering::SeqCst);
+                    s2.old.lock().unwrap().push((i, Arc::downgrade(&b)));
+                    *s2.cur.lock().unwrap() = Some((i, b.clone()));
+                    for (k, &(d, sit)) in parks.iter().enumerate() {
+                        s2.sit_out.store(sit, Ordering::SeqCst);
+                        let dur = if d == 0 { None } else { Some(Duration::from_millis(d)) };
+                        let t0 = Instant::now();
+                        call("blk.park", i as u64, d);
+                        let r = b.park(dur);
+                        let el = t0.elapsed();
+                        ret("blk.park", res_code(&r));
+                        match r {
+                            Ok(()) => {}
+                            Err(ParkError::Timeout) => {
+                                if d == 0 {
+                                    f2.lock().unwrap().push(format!("round {i}: Timeout from an untimed park"));
+                                } else if k == 0 && el < Duration::from_millis(d) {
+                                    // exact lower bound for the FIRST park on a fresh blocker only: a later park on
+                                    // the same blocker may be ended early by the stale timer of an earlier one (the
+                                    // spurious wake a re-used Park is allowed, see the example in Props/C02.lean)
+                                    f2.lock().unwrap().push(format!(
+                                        "round {i}: Timeout after {} us, before the requested {} ms",
+                                        el.as_micros(),
+                                        d
+                                    ));
+                                }
+                            }
+                            Err(ParkError::Canceled) => {
+                                f2.lock().unwrap().push(format!("round {i}: Canceled although nobody cancels"))
+                            }
+                        }
+                        s2.progress.fetch_add(1, Ordering::SeqCst);
+                    }
+                    call("blk.drop", i as u64, 0);
+                    let c = s2.cur.lock().unwrap().take();
+                    drop(c);
+                    drop(b);
+                    ret("blk.drop", 0);
+                }
+            };
+            let mut ts = vec![];
+            let mut cs = vec![];
+            // Keep the parker's handle alive until the kernel tails are certainly through: `Park::subscribe` still uses
+            // the coroutine's `Cancel` (a reference into the handle's allocation) AFTER it has published the coroutine;
+            // the `wait_kernel` guard protects the Park, not that allocation. If an unparker keeps the Blocker alive
+            // while the woken parker finishes and the last handle is dropped, the tail writes into freed memory
+            // (pending_fixes/README-C02.md, "kernel tail uses the coroutine's Cancel after publishing it").
+            // `VH_C02_NO_KEEPALIVE=1` exposes it (reproducer).
+            let mut keep = None;
+            if in_co {
+                cs.push(unsafe { coroutine::Builder::new().name(pname.clone()).spawn(parker).unwrap() });
+                if std::env::var("VH_C02_NO_KEEPALIVE").is_err() {
+                    keep = Some(cs[0].coroutine().clone());
+                }
+            } else {
+                ts.push(spawn_actor_thread(&pname, parker));
+            }
+            let s3 = sh.clone();
+            let unpark: Arc<dyn Fn(&mut Rng, &Up) -> bool + Send + Sync> = Arc::new(move |r: &mut Rng, u: &Up| {
+                let stale = r.chance(u.stale);
+                if let Some((bi, b)) = pick(&s3, stale, r) {
+                    call("blk.unpark", bi as u64, 0);
+                    b.unpark();
+                    drop(b);
+                    ret("blk.unpark", 0);
+                    true
+                } else {
+                    false // no blocker published yet
+                }
+            });
+            for (i, u) in ups.iter().enumerate() {
+                if u.is_co {
+                    continue;
+                }
+                let (sh, u, unpark) = (sh.clone(), *u, unpark.clone());
+                ts.push(spawn_actor_thread(&format!("t{}", i + 1), move || {
+                    let mut r = Rng::new(u.seed);
+                    let mut quota = Quota::default();
+                    while !sh.done.load(Ordering::SeqCst) && sh.progress.load(Ordering::SeqCst) < total {
+                        if !sh.sit_out.load(Ordering::SeqCst) && quota.allow(&sh) {
+                            let did = unpark(&mut r, &u);
+                            quota.count(did);
+                        }
+                        pause(&u, &mut r);
+                    }
+                }));
+            }
+            let mut out = vec![];
+            let mut bursts = Bursts::new(ups.len());
+            let fresh = Up { stale: 0, ..ups[0] };
+            if let Some(f) = rescue(&sh, total, &|| { let _ = unpark(&mut Rng::new(7), &fresh); }, &mut || {
+                bursts.tick(&ups, &sh, total, &unpark)
+            }) {
+                out.push(f);
+            }
+            // the parker first: if it hangs the watchdog fires while we wait here
+            if in_co {
+                if cs.remove(0).join().is_err() {
+                    out.push("parker coroutine panicked".to_string());
+                }
+            } else if ts.remove(0).join().is_err() {
+                out.push("parker thread panicked".to_string());
+            }
+            sh.done.store(true, Ordering::SeqCst);
+            for t in ts {
+                let _ = t.join();
+            }
+            for c in cs {
+                let _ = c.join();
+            }
+            bursts.join();
+            settle(max_ms);
+            drop(keep);
+            let p = sh.progress.load(Ordering::SeqCst);
+            if p != total {
+                out.push(format!("parker finished {p} of {total} parks"));
+            }
+            out.extend(fails.lock().unwrap().drain(..));
+            out
         }),
     }
 }
